@@ -105,7 +105,25 @@ def c03(chk):
                     slot = d * 1000 + k_slot; k_slot = (k_slot + 1) % 400
                     dslot = d * 1000 + 400 + (k_slot % 400)
                     objs.append((slot, pp))
-                    lines.append(init_line(rid[0], slot, 1, pp)); plan.append(('init', (slot, pp))); rid[0] += 1
+                    # how the object comes to hold `pp`: constructed / updated over other, already evaluated data /
+                    # assigned from another object onto other, already evaluated data (its lazy caches are then hot)
+                    prep = rng.choice(['ctor', 'ctor', 'update', 'assign'])
+                    chk.count(f'prepared by {prep}')
+                    if prep == 'ctor':
+                        lines.append(init_line(rid[0], slot, 1, pp)); plan.append(('init', (slot, pp))); rid[0] += 1
+                    else:
+                        nc0 = rng.choice([1, 2, 5, 9]) if fo < 0 else rng.randint(1, fo)
+                        pp0 = rand_pp(rng, d, fo, rng.choice([1, 2, 3, nseg]), rng.choice([nc0, nc]))
+                        lines.append(init_line(rid[0], slot, 1, pp0)); plan.append(('init', (slot, pp0))); rid[0] += 1
+                        for _ in range(2):
+                            t0_ = rng.uniform(pp0.bps[0], pp0.bps[-1]); k0_ = rng.randrange(0, pp0.nc)
+                            emit(f'pp_eval {slot} {hx(t0_)} {k0_}', 'eval', (slot, pp0, t0_, k0_))
+                        if prep == 'update':
+                            lines.append(init_line(rid[0], slot, 0, pp)); plan.append(('init', (slot, pp))); rid[0] += 1
+                        else:
+                            tmp = d * 1000 + 900 + (k_slot % 90)
+                            lines.append(init_line(rid[0], tmp, 1, pp)); plan.append(('init', (tmp, pp))); rid[0] += 1
+                            lines.append(f'{rid[0]} Q pp_assign {tmp} {slot}'); plan.append(('init', (slot, pp))); rid[0] += 1
                     # times
                     b = pp.bps
                     ts = []
@@ -310,10 +328,22 @@ def c11(chk):
                 tgt = rng.choice(slots)
                 if tgt == s:
                     continue
+                # half of the copies / assignments go onto a *hot* object: one whose lazy caches were just filled by an
+                # evaluation of its old data, and the target is evaluated again right afterwards
+                hot = tgt in live and mirror[tgt].ok and rng.random() < 0.6
+                if hot:
+                    old = mirror[tgt]
+                    t = rng.uniform(old.bps[0], old.bps[-1]); k = rng.randrange(0, old.nc)
+                    lines.append(f'{rid} Q pp_eval {tgt} {hx(t)} {k}'); plan.append(('probe', tgt, (t, k, copy.deepcopy(old)))); rid += 1
                 lines.append(f'{rid} Q pp_{op} {s} {tgt}'); plan.append((op, tgt, None)); rid += 1
                 mirror[tgt] = copy.deepcopy(cur)
                 if tgt not in live:
                     live.append(tgt)
+                if hot and cur.ok:
+                    chk.count(f'{op} onto a hot object')
+                    for _ in range(2):
+                        t = rng.uniform(cur.bps[0], cur.bps[-1]); k = rng.randrange(0, cur.nc)
+                        lines.append(f'{rid} Q pp_eval {tgt} {hx(t)} {k}'); plan.append(('probe', tgt, (t, k, copy.deepcopy(cur)))); rid += 1
         # closing probe of every live object: a few evaluations at several orders
         for s in live:
             cur = mirror[s]
